@@ -1,6 +1,7 @@
 package main
 
 import (
+	"encoding/json"
 	"runtime/debug"
 	"flag"
 	"fmt"
@@ -26,6 +27,9 @@ func main() {
 	switch os.Args[1] {
 	case "check":
 		os.Exit(cmdCheck(os.Args[2:]))
+	case "metas":
+		b, _ := json.MarshalIndent(rules.Metas, "", " ")
+		fmt.Println(string(b))
 	case "dump":
 		os.Exit(cmdDump(os.Args[2:]))
 	case "explain":
